@@ -29,11 +29,15 @@ pub fn parse_const(s: &str) -> Option<il::Constant> {
 
 /// run `f`, turning a Rust panic into `None`; the default panic hook is silenced by `quiet_panics`
 pub fn catch<T>(f: impl FnOnce() -> T) -> Option<T> {
-    catch_unwind(AssertUnwindSafe(f)).ok()
+    CATCH_DEPTH.with(|d| d.set(d.get() + 1));
+    let r = catch_unwind(AssertUnwindSafe(f)).ok();
+    CATCH_DEPTH.with(|d| d.set(d.get() - 1));
+    r
 }
 
 thread_local! {
     static LAST_PANIC: std::cell::RefCell<String> = std::cell::RefCell::new(String::new());
+    static CATCH_DEPTH: std::cell::Cell<u32> = std::cell::Cell::new(0);
 }
 
 /// where and why the most recent panic on this thread happened, without line numbers or values:
@@ -63,7 +67,8 @@ pub fn quiet_panics() {
             .take(8)
             .collect::<Vec<_>>()
             .join("_");
-        if verbose {
+        // a panic outside `catch` ends the process (exit 101): say where, `check` puts it in the replay file
+        if verbose || CATCH_DEPTH.with(|d| d.get()) == 0 {
             eprintln!("PANIC {}", info.to_string().replace('\n', " "));
         }
         LAST_PANIC.with(|p| *p.borrow_mut() = format!("{}:{}", file, msg));
